@@ -207,15 +207,20 @@ def pointers(ctx):
             ('num_pages', 'C05.high-water', ('Meta', 'num_pages'), None, 'the high-water mark recorded in the header'),
             ('freelist_page', 'C05.freelist-ptr', ('Page', 'id'), txalloc, 'the free-list pointer recorded in the header')):
         found = False
-        for fn in sorted(F.reachable_fns([cm]), key=lambda f: f.path):
+        X = ctx.x(cm)         # commit with its private helpers folded in: the store may sit in a helper that receives `&mut self.meta`
+        folded = set(getattr(X, 'inlined', ()))
+        for fn in [X] + sorted((g for g in F.reachable_fns([cm]) if g is not cm and g.qual not in folded), key=lambda f: f.path):
             du = None
             for bb, si, s in stores_to_field(fn, 'Meta', fld):
                 # only stores into the transaction's Meta (self.meta.*): root is a &mut TxInner parameter
                 fs = [e for e in s['p']['pr'] if e['k'] == 'field']
-                if len(fs) < 2 or fs[-2].get('adt') is None or last_seg(fs[-2]['adt']) != 'TxInner':
+                du = du or ctx.du(fn)
+                if len(fs) >= 2:
+                    if fs[-2].get('adt') is None or last_seg(fs[-2]['adt']) != 'TxInner':
+                        continue
+                elif not any(len(path) >= 2 and path[-2] == 'meta' and 'freelist' not in path for (_r, path) in du._place_cells(s['p'])):
                     continue
                 found = True
-                du = du or ctx.du(fn)
                 _, atoms = du.slice_operand(s['rv']['op']) if s['rv']['k'] == 'use' else (None, set())
                 good = has_field(atoms, *need_field) and (need_call is None or has_call(atoms, need_call.path))
                 if fld == 'num_pages':
@@ -536,6 +541,10 @@ def run(ctx, tier):
     results += freelist_is_set(ctx)
     results += parent_links_refreshed(ctx)
     results += c02.reload_rule(ctx, rule='C05.reload')
+    import c16
+    results += c16.grow(ctx, rule='C05.grow')
+    import c11
+    results += c11.remap_on_success(ctx, rule='C05.remap-on-success')
     results += c02.cow_free_set(ctx, rule='C05.cow.free-set')
     import c10, c06
     results += c10.delete_walk_guard(ctx, rule='C05.delete-walk-guard')
